@@ -8,20 +8,31 @@
 (* or to views derived from it the spec defines, *operationally* (only from *)
 (* bytes read in the buffer, as the library navigates, cf. View.tla):       *)
 (*                                                                         *)
-(*   Touched(op)  the bytes op must read / write to do its documented job,  *)
-(*                in program order, each tagged with the start of the view  *)
-(*                (or the cursor) through which it is made                  *)
+(*   Touched(op)  the bytes the *observable result* of op depends on (values  *)
+(*                returned, addresses of returned views, final cursor        *)
+(*                position) and the bytes it is documented to write, in      *)
+(*                program order, each tagged with the start of the view (or  *)
+(*                the cursor) through which the access is made.  A byte the  *)
+(*                implementation happens to read for a check of its own is   *)
+(*                NOT in Touched (it may be in Req).                         *)
 (*   Req(op)      the extent the documentation makes the caller responsible *)
 (*                for (DESIGN.md Appendix B; generous where the docs are    *)
-(*                silent: a whole header composite, a whole fixed array,    *)
-(*                prefix + max(old,new) size of a <data>, whole entries an  *)
-(*                iterator steps over)                                      *)
-(*   Pre(op)      the documented precondition on the arguments              *)
+(*                silent: a whole header composite, a whole fixed array or  *)
+(*                composite that is obtained, prefix + max(old,new) size of *)
+(*                a <data>, whole entries an iterator steps over, everything *)
+(*                a cursor position check re-derives)                       *)
+(*   Pre(op)      the documented precondition on the arguments (only calls   *)
+(*                with Pre are generated, apart from those whose Pre depends *)
+(*                on a hostile header)                                       *)
 (*                                                                         *)
 (* and the outcome relation                                                 *)
 (*   Touched not within [V0,V0+n)          => must_assert                   *)
 (*   Req within [V0,V0+n) /\ Pre           => must_ok                       *)
 (*   otherwise                             => either   (docs are silent)    *)
+(* Whatever the outcome, an access outside [V0,V0+n) without the handler is  *)
+(* a violation; that is observed by the harness (guard pages), not stated    *)
+(* here.  BeyondEnd labels the vectors in which some view of the call chain  *)
+(* (or the cursor) starts beyond V0+n (DESIGN.md 6 #11).                     *)
 (*                                                                         *)
 (* An operation here is the whole C++ expression the harness evaluates:     *)
 (* navigation from the message view to the receiver (accessors, begin(),    *)
